@@ -26,7 +26,7 @@ var R = hx.NewRecorder("C02", "cases = (key, plaintext, ordering, raw|ASN.1|cryp
 var cv = rsm2.Std
 
 func TestMain(m *testing.M) {
-	R.Require("c1_x_plus_p", "len==0", "len%32==0", "len%32==31", "x2y2_leading_zero", "asn1", "c1c2c3", "c1c3c2", "trunc<97", "offcurve_order2", "offcurve_consistent", "wrong_key", "mode_confusion", "subst_c1", "subst_c2", "subst_c3")
+	R.Require("c1_x_plus_p", "len==0", "len%32==0", "len%32==31", "x2y2_leading_zero", "asn1", "c1c2c3", "c1c3c2", "trunc<97", "offcurve_order2", "offcurve_consistent", "wrong_key", "mode_confusion", "subst_c1", "subst_c2", "subst_c3", "nonce_short_reads")
 	hx.Main(m, R)
 }
 
@@ -102,6 +102,11 @@ func drawEnc(t *rapid.T, maxLen int) encCase {
 func encrypt(t *rapid.T, c *encCase) []byte {
 	pub := sm2x.Pub(c.key.Pub)
 	rd := sm2x.NewNonceReader(c.block)
+	if rapid.IntRange(0, 3).Draw(t, "shortreads") == 0 {
+		// a randomness source that hands out 1..39 bytes per call: the nonce is what the STREAM encodes
+		rd.Chunk = rapid.SampledFrom([]int{1, 7, 16, 32, 39}).Draw(t, "chunk")
+		R.Class("nonce_short_reads")
+	}
 	var out []byte
 	var err error
 	p := hx.Try(func() {
